@@ -1,7 +1,7 @@
 /* props_overlap.c -- C07: every relative placement of src and dest inside one object */
 #include "model.h"
 
-#define OV_TOTAL 512          /* elements in the shared object */
+#define OV_TOTAL 720          /* elements in the shared object: dest at 200, src up to 198 further, operands up to 132+1 elements, and room behind */
 #define OV_DEST 200           /* dest starts here */
 
 typedef struct ocase {
@@ -144,6 +144,9 @@ static void exec_ov(const void *k, res_t *r, const runcfg_t *cfg, int prop) {
     a = (args_t){0};
     a.dest = dest; a.dmax = c->dmax; a.destbos = c->dbos ? (total - OV_DEST) * (size_t)w : BOS_UNKNOWN;
     a.src = src; a.slen = c->slen; a.n = c->slen; a.srcbos = c->sbos ? (total - (size_t)so) * (size_t)w : BOS_UNKNOWN;
+    /* a declared length above the known size of the source object is its own documented constraint (EOVERFLOW), judged by
+       C05's module; here the object size is then left unknown so that the call is about the overlap */
+    if (c->sbos && c->slen * (size_t)row->su > (total - (size_t)so) * (size_t)w) a.srcbos = BOS_UNKNOWN;
     a.val = c->val; a.errp = &errv;
     h_count = 0; h_code = -1;
     set_str_constraint_handler_s(ov_handler); set_mem_constraint_handler_s(ov_handler);
